@@ -261,15 +261,21 @@ func (g *mgen) spine(d int, rels []string, hasThis *bool, self string) *openfgav
 	if d == 0 {
 		return g.userset(99, rels, hasThis, self)
 	}
-	inner := g.spine(d-1, rels, hasThis, self)
 	n := 2 + r.Intn(2)
 	op := r.Intn(3)
 	if op == 2 {
 		n = 2
 	}
-	ch := g.children(n-1, 99, rels, hasThis, self)
-	at := r.Intn(n)
-	all := append(append(append([]*openfgav1.Userset{}, ch[:min(at, len(ch))]...), inner), ch[min(at, len(ch)):]...)
+	var all []*openfgav1.Userset
+	if d == 1 {
+		// the innermost operator has leaves only: children() keeps `this` and identical TTUs unique per operator (DESIGN 7-b)
+		all = g.children(n, 99, rels, hasThis, self)
+	} else {
+		inner := g.spine(d-1, rels, hasThis, self)
+		ch := g.children(n-1, 99, rels, hasThis, self)
+		at := r.Intn(n)
+		all = append(append(append([]*openfgav1.Userset{}, ch[:min(at, len(ch))]...), inner), ch[min(at, len(ch)):]...)
+	}
 	switch op {
 	case 0:
 		return Union(all...)
